@@ -32,7 +32,18 @@ def main(argv=None):
 	# import-time state of the code under test (defaults captured at import, registries) is fixed here, in the
 	# launcher's working directory, and not by whichever run happens to import a module first
 	try:
+		import importlib
+		import pkgutil
+		import gambit
 		import gambit.cli  # noqa
+		# every module of the package: a lazy `from .x import y` inside a function would otherwise execute x's
+		# module body - extra line events in gambit frames - in whichever run comes first in a process
+		for m in pkgutil.walk_packages(gambit.__path__, 'gambit.'):
+			if not m.name.endswith('__main__'):
+				try:
+					importlib.import_module(m.name)
+				except Exception:
+					pass
 	except Exception:
 		pass
 	mod = props.get(args['prop'])
